@@ -119,6 +119,7 @@ class VLoop(asyncio.SelectorEventLoop):
     async def create_datagram_endpoint(self, protocol_factory, local_addr=None, remote_addr=None, **kw):
         outcome, delay = self.connect_script("udp")
         if outcome != "ok":
+            await asyncio.sleep(0)  # the stock loop suspends at least once before failing
             self.rec("CONNFAIL", kind="udp", why=outcome)
             raise _connect_error(outcome)
         protocol = protocol_factory()
@@ -139,6 +140,8 @@ class VLoop(asyncio.SelectorEventLoop):
             await self.create_future()  # never completes; wait_for() cancels it
         if delay:
             await asyncio.sleep(delay * TICK)
+        elif outcome != "ok":
+            await asyncio.sleep(0)  # the stock loop suspends at least once before failing
         if outcome != "ok":
             self.rec("CONNFAIL", kind="tcp", why=outcome)
             raise _connect_error(outcome)
